@@ -686,6 +686,27 @@ _upd("C15", "The refinement to the declarative specification is proved (bind_ref
      "(header_key_normalisation, first_source_is_first_hit, prebind_is_json_value).",
      "Open: refinement theorem model = declarative spec outside the known-finding classes (checked per case).",
      "A repeated tag key (query:\"-\" query:\"a\") reaches the known finding dash-only-default through a shadowed tag; the generator emits no repeated keys.")
+# extension X15: nested struct types and streamed bodies
+PROPS["C15"]["rule"] += (" Nested struct types (extension X15, `nbind` cases): field trees of depth up to 6 below the root with 1..3 struct-typed sibling "
+    "fields per level (by value, *S, **S, embedded), leaves of all supported kinds with tags for several sources, one spine to full depth; "
+    "requests with text sources for every leaf (own keys per leaf in 3 of 4 types, one small shared key pool in the rest), a nested JSON "
+    "document (objects, null, mistyped members, case variants of keys, promoted members of embedded structs), delivered in the request "
+    "buffer, as a body stream (SetBodyStream, known length) or as a drained stream; EVERY request is bound twice through one fresh binder "
+    "(Bind then BindAndValidate or the other way round) and both outcomes are compared with the model and the specification.")
+PROPS["C15"]["assumptions"] = PROPS["C15"]["assumptions"] + [
+    "nested types: JSON names contain no '.'; a key whose value is an object is not repeated inside one object; the names an embedded struct "
+    "promotes do not clash with names of the enclosing struct; allocation of pointer-to-struct parents is not observed (a nil pointer is "
+    "rendered as a struct of zero leaves); a drained body stream is combined with JSON or empty bodies only"]
+_upd("C15", "Nested struct types are inside the model (Model/BindNested.lean: getFieldDecoder with parentIdx / parentJSONName per child, decoders "
+     "addressing leaves by full index path with a fault outcome, the body state buffered / stream / drained): two different leaves never "
+     "get the same index path (index_paths_distinct, index_paths_are_the_leaves) and, for every tree and every request without exclusion, no "
+     "decoder ever addresses a path that is not a leaf (nested_bind_never_faults); a nested leaf decoder is the top-level decoder on the "
+     "request focused on the enclosing JSON object (nested_leaf_is_top_level_field); for every field tree of any depth and width and every "
+     "request, outside the known-finding classes, Bind gives every leaf exactly the value of the first present source its own tags name "
+     "(nested_bind_refines_spec_partial; witnesses of the two excluded behaviours nested_bind_refines_spec_fails_at, embedded_default_fails_at); "
+     "binding the same request twice gives the same result in every body state and a streamed body is bound as a buffered one "
+     "(bind_idempotent_on_request, bind_independent_of_body_delivery, both_binds_refine_spec_partial).")
+
 _upd("C16", "Proved in addition, for both naming styles: interpreting the generated Register registers exactly the declared routes with "
      "every wrapping group on the path (register_denotes_declared_routes), one group per prefix under sort-router "
      "(register_denotes_sorted), variables pairwise distinct, every middleware called is declared, and identifiers stay distinct through an "
